@@ -18,7 +18,7 @@ func init() {
 	register(&Check{
 		Meta: report.Meta{
 			Property: "C07",
-			Rule: "for every script of a family (variables set before and after jumps, visited_count of every node shown in lines, option groups, a command that never completes, tracking: never nodes, a host-populated storer, ends), every path of an original runner up to the save bound, every step of it as save point (Snapshot), optional host write, every continuation of the original up to a bound; " +
+			Rule: "for every script of a family (variables set before and after jumps, visited_count of every node shown in lines, option groups, a command that never completes, tracking: never nodes, a host-populated storer and a storer empty at creation, ends), every path of an original runner up to the save bound, every step of it as save point (Snapshot), optional host write, every continuation of the original up to a bound; " +
 				"every receiving runner (the original itself, or a fresh runner of the same script driven along every path up to a bound: fresh, mid-node, waiting for a choice, waiting for a command, ended; with optional host write), optional RestoreAt of a snapshot naming an unknown node first, then RestoreAt(snapshot), optional second runner restored from the same snapshot and stepped alternately, every continuation path up to a bound, optional second restore of the same snapshot; " +
 				"oracle on every transition: elements equal those of the reference interpreter restarted from its node-entry checkpoint; every snapshot value held is deep-equal to the frozen copy taken when it was made and to the model checkpoint (nil = empty map); a snapshot taken right after the restore equals the restored one; the unknown-node restore fails and leaves the reflective dump of runner and storer unchanged; " +
 				"a case is one (script, original path, save point, receiver state, continuation); non-trivial = the save point is after at least one jump or the receiver is not fresh",
@@ -35,15 +35,24 @@ var c07Host = &yc.HostSpec{
 	Vars: map[string]yc.Value{"gold": yc.Num(5)},
 }
 
-func c07Scripts() []*yc.Program {
+func c07Scripts(withGold bool) []*yc.Program {
 	st := func(tag string, names ...string) *yc.Stmt {
-		ls := &yc.LineSpec{Parts: []yc.Part{{Src: tag + " x=", Want: tag + " x="}, {E: yc.EVariable("x")}, {Src: " g=", Want: " g="}, {E: yc.EVariable("gold")}, {Src: " ", Want: " "}}}
+		ls := &yc.LineSpec{Parts: []yc.Part{{Src: tag + " x=", Want: tag + " x="}, {E: yc.EVariable("x")}, {Src: " ", Want: " "}}}
+		if withGold {
+			ls.Parts = append(ls.Parts, yc.Part{Src: "g=", Want: "g="}, yc.Part{E: yc.EVariable("gold")}, yc.Part{Src: " ", Want: " "})
+		}
 		for _, n := range names {
 			ls.Parts = append(ls.Parts, yc.Part{Src: n + "=", Want: n + "="}, yc.Part{E: yc.ECallOf("visited_count", yc.EString(n))}, yc.Part{Src: " ", Want: " "})
 		}
 		return yc.LineOf(ls)
 	}
 	setx := func(op string, v float64) *yc.Stmt { return yc.Set("x", op, yc.ENumber(v)) }
+	gold := func(op string, v float64) *yc.Stmt {
+		if withGold {
+			return yc.Set("gold", op, yc.ENumber(v))
+		}
+		return yc.Set("silver", "=", yc.ENumber(v))
+	}
 	return []*yc.Program{
 		// P1: options, variables before/after jumps, a never tracked node with a pending command
 		{Nodes: []*yc.Node{
@@ -66,8 +75,8 @@ func c07Scripts() []*yc.Program {
 		}},
 		// P4: the host-populated variable, an end without jump
 		{Nodes: []*yc.Node{
-			{Title: "A", Body: []*yc.Stmt{setx("=", 0), st("a"), yc.Set("gold", "-=", yc.ENumber(1)), st("a'"), yc.Options(&yc.Option{Line: yc.TextLine("leave"), Body: []*yc.Stmt{yc.Jump("B")}}, &yc.Option{Line: yc.TextLine("end")})}},
-			{Title: "B", Tracking: "always", Body: []*yc.Stmt{st("b", "A", "B"), yc.Set("gold", "+=", yc.ENumber(10)), yc.Command("act"), st("b'", "A", "B"), yc.Jump("A")}},
+			{Title: "A", Body: []*yc.Stmt{setx("=", 0), st("a"), gold("-=", 1), st("a'"), yc.Options(&yc.Option{Line: yc.TextLine("leave"), Body: []*yc.Stmt{yc.Jump("B")}}, &yc.Option{Line: yc.TextLine("end")})}},
+			{Title: "B", Tracking: "always", Body: []*yc.Stmt{st("b", "A", "B"), gold("+=", 10), yc.Command("act"), st("b'", "A", "B"), yc.Jump("A")}},
 		}},
 		// P5: a dialogue that ends soon (ended receivers)
 		{Nodes: []*yc.Node{
@@ -454,5 +463,12 @@ func restoreExplore(ctx *report.Ctx, partName string, scripts []*yc.Program, hs 
 func runC07(ctx *report.Ctx) {
 	b := report.Pick(ctx, c07Bounds{pre: 4, mid: 2, recv: 3, cont: 3}, c07Bounds{pre: 7, mid: 3, recv: 5, cont: 5})
 	ctx.Bound("steps_before_save / continuation_of_original / receiver_steps / continuation_after_restore", fmt.Sprintf("%d / %d / %d / %d", b.pre, b.mid, b.recv, b.cont))
-	restoreExplore(ctx, "SR", c07Scripts(), c07Host, b)
+	// the family on a storer that is empty at creation: the first checkpoint holds no variable at all
+	noVars := &yc.HostSpec{Cmds: c07Host.Cmds}
+	b0 := b
+	if ctx.Quick() {
+		b0 = c07Bounds{pre: 2, mid: 1, recv: 3, cont: 2}
+	}
+	restoreExplore(ctx, "SR0", c07Scripts(false), noVars, b0)
+	restoreExplore(ctx, "SR", c07Scripts(true), c07Host, b)
 }
